@@ -58,3 +58,99 @@ Section Sine.
     let autos' := map (fun a => fst (tick a)) autos in
     (ls', autos', (map (fun l => fst (plfo_next l)) ls', map value autos')).
 End Sine.
+
+(** * Re-configuration after construction (FIX-C18)
+   lfo.min = x / lfo.max = x / lfo.frequency = x are plain attribute assignments; LFO.update(properties) is
+   setattr in dict order; Timeline.lfo(params, name=<name of an existing LFO>) calls update on that LFO and
+   returns it, otherwise constructs LFO with the params as keyword arguments and appends it; LFO.reset sets current_time = 0.
+   None of them touches current_value: the new configuration shows from the next tick on, where LFO.tick reads
+   self.min / self.max / self.frequency afresh. *)
+Inductive lfo_key := KFreq | KMin | KMax.
+
+Definition lfo_get (k : lfo_key) (l : lfo) : Q :=
+  match k with KFreq => l_freq l | KMin => l_min l | KMax => l_max l end.
+
+Definition lfo_setattr (k : lfo_key) (x : Q) (l : lfo) : lfo :=
+  match k with
+  | KFreq => mkLfo x (l_min l) (l_max l) (l_time l) (l_value l)
+  | KMin => mkLfo (l_freq l) x (l_max l) (l_time l) (l_value l)
+  | KMax => mkLfo (l_freq l) (l_min l) x (l_time l) (l_value l)
+  end.
+
+(* LFO.update: for key, value in properties.items(): setattr(self, key, value) *)
+Fixpoint lfo_update (props : list (lfo_key * Q)) (l : lfo) : lfo :=
+  match props with
+  | [] => l
+  | (k, x) :: r => lfo_update r (lfo_setattr k x l)
+  end.
+
+(* LFO.reset *)
+Definition lfo_reset (l : lfo) : lfo := mkLfo (l_freq l) (l_min l) (l_max l) 0 (l_value l).
+
+Definition key_eqb (a b : lfo_key) : bool :=
+  match a, b with KFreq, KFreq | KMin, KMin | KMax, KMax => true | _, _ => false end.
+Fixpoint lookup_key (k : lfo_key) (props : list (lfo_key * Q)) : option Q :=
+  match props with
+  | [] => None
+  | (k', x) :: r => if key_eqb k k' then Some x else lookup_key k r
+  end.
+
+Inductive lfo_op := LTick | LUpdate (props : list (lfo_key * Q)) | LReset.
+Definition is_ltick (o : lfo_op) : bool := match o with LTick => true | _ => false end.
+Definition is_lreset (o : lfo_op) : bool := match o with LReset => true | _ => false end.
+
+Section SineScript.
+  Variable sin2pi : Q -> Q.
+
+  (* LFO.__init__ with the params as keyword arguments: frequency is a required argument (None = TypeError), min / max
+     default to 0 / 1 *)
+  Definition lfo_of_params (props : list (lfo_key * Q)) : option lfo :=
+    match lookup_key KFreq props with
+    | None => None
+    | Some f => Some (new_lfo f (match lookup_key KMin props with Some x => x | None => 0 end)
+                                (match lookup_key KMax props with Some x => x | None => 1 end))
+    end.
+
+  (* Timeline.lfo(params, name=name): the LFOs of the timeline with their names, in list order.  The first LFO
+     whose name is the given (not None) name is updated in place; otherwise a new one is appended.
+     Result: the list and the position of the LFO that is returned; None = the constructor raises *)
+  Fixpoint tl_find (name : Z) (ls : list (option Z * lfo)) (i : nat) : option nat :=
+    match ls with
+    | [] => None
+    | (Some n, _) :: r => if (n =? name)%Z then Some i else tl_find name r (S i)
+    | (None, _) :: r => tl_find name r (S i)
+    end.
+  Fixpoint tl_update_at (i : nat) (props : list (lfo_key * Q)) (ls : list (option Z * lfo)) : list (option Z * lfo) :=
+    match ls, i with
+    | [], _ => []
+    | (n, l) :: r, O => (n, lfo_update props l) :: r
+    | e :: r, S j => e :: tl_update_at j props r
+    end.
+  Definition tl_lfo (name : option Z) (props : list (lfo_key * Q)) (ls : list (option Z * lfo))
+    : option (list (option Z * lfo) * nat) :=
+    match match name with Some n => tl_find n ls 0 | None => None end with
+    | Some i => Some (tl_update_at i props ls, i)
+    | None => match lfo_of_params props with
+              | Some l => Some (ls ++ [(name, l)], List.length ls)
+              | None => None
+              end
+    end.
+
+  (* a history of ticks and re-configurations *)
+  Definition lfo_step (tpb : Z) (o : lfo_op) (l : lfo) : lfo :=
+    match o with
+    | LTick => lfo_tick sin2pi tpb l
+    | LUpdate ps => lfo_update ps l
+    | LReset => lfo_reset l
+    end.
+  Fixpoint lfo_run (tpb : Z) (ops : list lfo_op) (l : lfo) : lfo :=
+    match ops with [] => l | o :: r => lfo_run tpb r (lfo_step tpb o l) end.
+
+  (* what is seen after every operation of the history: (was it a tick, value, min, max at that moment) *)
+  Fixpoint lfo_script_trace (tpb : Z) (ops : list lfo_op) (l : lfo) : list (bool * Q * (Q * Q)) :=
+    match ops with
+    | [] => []
+    | o :: r => let l' := lfo_step tpb o l in
+                (is_ltick o, l_value l', (l_min l', l_max l')) :: lfo_script_trace tpb r l'
+    end.
+End SineScript.
